@@ -59,6 +59,8 @@ macro_rules! poll_flush {
             SubstreamType::Quic(substream) => Pin::new(substream).poll_flush($cx),
             #[cfg(feature = "webrtc")]
             SubstreamType::WebRtc(substream) => Pin::new(substream).poll_flush($cx),
+            #[cfg(feature = "verif")]
+            SubstreamType::Verif(substream) => Pin::new(substream).poll_flush($cx),
             #[cfg(test)]
             SubstreamType::Mock(_) => unreachable!(),
         }
@@ -75,6 +77,8 @@ macro_rules! poll_write {
             SubstreamType::Quic(substream) => Pin::new(substream).poll_write($cx, $frame),
             #[cfg(feature = "webrtc")]
             SubstreamType::WebRtc(substream) => Pin::new(substream).poll_write($cx, $frame),
+            #[cfg(feature = "verif")]
+            SubstreamType::Verif(substream) => Pin::new(substream).poll_write($cx, $frame),
             #[cfg(test)]
             SubstreamType::Mock(_) => unreachable!(),
         }
@@ -91,6 +95,8 @@ macro_rules! poll_read {
             SubstreamType::Quic(substream) => Pin::new(substream).poll_read($cx, $buffer),
             #[cfg(feature = "webrtc")]
             SubstreamType::WebRtc(substream) => Pin::new(substream).poll_read($cx, $buffer),
+            #[cfg(feature = "verif")]
+            SubstreamType::Verif(substream) => Pin::new(substream).poll_read($cx, $buffer),
             #[cfg(test)]
             SubstreamType::Mock(_) => unreachable!(),
         }
@@ -107,6 +113,8 @@ macro_rules! poll_shutdown {
             SubstreamType::Quic(substream) => Pin::new(substream).poll_shutdown($cx),
             #[cfg(feature = "webrtc")]
             SubstreamType::WebRtc(substream) => Pin::new(substream).poll_shutdown($cx),
+            #[cfg(feature = "verif")]
+            SubstreamType::Verif(substream) => Pin::new(substream).poll_shutdown($cx),
             #[cfg(test)]
             SubstreamType::Mock(substream) => {
                 let _ = Pin::new(substream).poll_close($cx);
@@ -173,6 +181,8 @@ enum SubstreamType {
     WebRtc(webrtc::Substream),
     #[cfg(test)]
     Mock(Box<dyn crate::mock::substream::Substream>),
+    #[cfg(feature = "verif")]
+    Verif(Box<dyn VerifIo>),
 }
 
 impl fmt::Debug for SubstreamType {
@@ -187,6 +197,8 @@ impl fmt::Debug for SubstreamType {
             Self::WebRtc(_) => write!(f, "WebRtc"),
             #[cfg(test)]
             Self::Mock(_) => write!(f, "Mock"),
+            #[cfg(feature = "verif")]
+            Self::Verif(_) => write!(f, "Verif"),
         }
     }
 }
@@ -350,6 +362,8 @@ impl Substream {
                 let _ = futures::SinkExt::close(&mut substream).await;
                 Ok(())
             }
+            #[cfg(feature = "verif")]
+            SubstreamType::Verif(mut substream) => substream.shutdown().await,
         };
     }
 
@@ -420,6 +434,14 @@ impl Substream {
             #[cfg(test)]
             SubstreamType::Mock(ref mut substream) =>
                 futures::SinkExt::send(substream, bytes).await,
+            #[cfg(feature = "verif")]
+            SubstreamType::Verif(ref mut substream) => match self.codec {
+                ProtocolCodec::Unspecified => panic!("codec is unspecified"),
+                ProtocolCodec::Identity(payload_size) =>
+                    Self::send_identity_payload(substream, payload_size, bytes).await,
+                ProtocolCodec::UnsignedVarint(max_size) =>
+                    Self::send_unsigned_varint_payload(substream, bytes, max_size).await,
+            },
             SubstreamType::Tcp(ref mut substream) => match self.codec {
                 ProtocolCodec::Unspecified => panic!("codec is unspecified"),
                 ProtocolCodec::Identity(payload_size) =>
@@ -1085,5 +1107,20 @@ mod tests {
         for _ in 0..10 {
             assert!(futures::poll!(set.next()).is_pending());
         }
+    }
+}
+
+/// Verification hook (feature `verif`): carrier supplied by the verification harness.
+#[cfg(feature = "verif")]
+pub trait VerifIo: AsyncRead + AsyncWrite + Unpin + Send {}
+
+#[cfg(feature = "verif")]
+impl Substream {
+    /// Verification hook: substream over a harness-provided carrier.
+    pub fn new_verif(peer: PeerId, substream_id: SubstreamId, io: Box<dyn VerifIo>, codec: ProtocolCodec) -> Self {
+        Self::new(peer, substream_id, SubstreamType::Verif(io), codec)
+    }
+    pub fn pending_out_is_empty_verif(&self) -> bool {
+        self.pending_out_frame.is_none() && self.pending_out_frames.is_empty()
     }
 }
